@@ -30,6 +30,9 @@ pub struct GenCfg {
     /// remove an instruction from some blocks with `Block::remove_instruction`, so that instruction indices
     /// are no longer contiguous (index != position) — what every editing client of the IL can produce
     pub index_gaps: bool,
+    /// before some blocks are created, try to wire an edge to their (not yet existing) index: the insertion is
+    /// rejected and must leave nothing behind — what a client that wires edges before blocks sees
+    pub rejected_edges: bool,
 }
 
 impl Default for GenCfg {
@@ -60,6 +63,7 @@ impl Default for GenCfg {
             entry_in_loop: true,
             allow_div: true,
             index_gaps: true,
+            rejected_edges: true,
         }
     }
 }
@@ -247,7 +251,18 @@ pub fn gen_cfg(rng: &mut Rng, g: &GenCfg) -> ControlFlowGraph {
         for _ in 0..k {
             ops.push(gen_op(rng, g));
         }
+        let next = cfg.blocks().len();
+        if g.rejected_edges && next >= 1 && rng.chance(1, 8) {
+            // `next` is the index the block created below will get (indices are handed out in order)
+            let head = rng.below(next as u64) as usize;
+            let _ = if rng.chance(1, 2) {
+                cfg.unconditional_edge(head, next)
+            } else {
+                cfg.conditional_edge(head, next, il::expr_const(1, 1))
+            };
+        }
         let block = cfg.new_block().unwrap();
+        debug_assert!(block.index() == next);
         for op in ops {
             match op {
                 Operation::Assign { dst, src } => block.assign(dst, src),
@@ -310,8 +325,10 @@ pub fn gen_cfg(rng: &mut Rng, g: &GenCfg) -> ControlFlowGraph {
         };
         for (t, c) in tails.iter().zip(guards) {
             match c {
-                None => cfg.unconditional_edge(h, *t).unwrap(),
-                Some(c) => cfg.conditional_edge(h, *t, c).unwrap(),
+                // an error here (only possible if a rejected insertion above left something behind) is for the
+                // checks to see in the function that results, not for the generator to die of
+                None => { let _ = cfg.unconditional_edge(h, *t); }
+                Some(c) => { let _ = cfg.conditional_edge(h, *t, c); }
             }
         }
     }
